@@ -80,7 +80,10 @@ def walk_frames(hist, layout, rng):
     for f, present in enumerate(hist):
         dets = []
         for a in present:
-            base = np.array([20.0 + 6.0 * f, 60.0 + 120.0 * (a - 1)]) if layout == "lanes" else np.array([20.0 + 3.0 * f + 151.0 * (3 - a), 100.0])
+            if layout == "fast":      # 40 px per frame with 40 px bodies, lanes 400 px apart: the score of an
+                base = np.array([20.0 + 40.0 * f, 60.0 + 400.0 * (a - 1)])     # animal against its own last pose is tiny (OKS ~ e^-200) but not 0
+            else:
+                base = np.array([20.0 + 6.0 * f, 60.0 + 120.0 * (a - 1)]) if layout == "lanes" else np.array([20.0 + 3.0 * f + 151.0 * (3 - a), 100.0])
             dets.append(dict(a=a, hi=True, pts=POSE + base))
         rng.shuffle(dets)
         frames.append(dets)
@@ -125,16 +128,16 @@ def run(tier, seed):
         for match in ("hungarian", "greedy"):
             for red in ("mean", "max"):
                 for k, (feat, score) in enumerate(FEATURES):
-                    for layout in ("lanes", "file"):
-                        # quick: both layouts for every (store, matcher, reduction), features rotated
-                        if tier == "quick" and (n_long + k + (layout == "file")) % 3:
+                    for li, layout in enumerate(("lanes", "file", "fast")):
+                        # quick: one layout per (configuration, feature), rotated so that every (feature, layout) pair occurs
+                        if tier == "quick" and (n_long + k) % 3 != li:
                             continue
                         w = rng.choice([3, 5])
-                        hist, frames = long_walk(rng, w, rng.randint(100, 140), layout)
+                        hist, frames = long_walk(rng, w, rng.randint(100, 140) if layout != "fast" else rng.randint(40, 60), layout)
                         tc = dict(store=store, match=match, red=red, feat=feat, score=score)
                         cfg = dict(store=store, match=match, red=red, w=w)
                         traces.append(dict(id=len(traces), mode="C10", cfg=cfg, frames=run_history(tc, w, frames), tc=tc, hist=hist, long=layout))
-                    n_long += 1
+                n_long += 1
     res.clause("long_walk_histories", n_long)
     res.clause("histories_with_diagonal_neighbours", sum(1 for t in traces if t.get("layout") == "diagonal"))
     j = judge("Trace_Tracker", [dict(id=t["id"], mode="C10", cfg=t["cfg"], frames=[dict(dets=f["dets"], ret=f["ret"], raised=f["raised"]) for f in t["frames"]]) for t in traces],
